@@ -66,7 +66,7 @@ impl Context {
             defs_ex: Vec::new(), // Contains the simple string 
             defs_ex_ex: Vec::new(), // Contains the string regexps that will be fed into regex_set
             regexes: Vec::new(),
-            define_regex: Regex::new(r"([a-zA-Z_][a-zA-Z0-9_]*)(?:\(((?:(?:[a-zA-Z_][a-zA-Z0-9_]*)\s*,\s*)*(?:(?:[a-zA-Z_][a-zA-Z0-9_]*))*)\))?\s*(.*)").unwrap(),
+            define_regex: Regex::new(r"([a-zA-Z_][a-zA-Z0-9_]*)(?:\(\s*((?:(?:[a-zA-Z_][a-zA-Z0-9_]*)\s*,\s*)*(?:(?:[a-zA-Z_][a-zA-Z0-9_]*))*)\s*\))?\s*(.*)").unwrap(),
             literal_strings: Vec::new(),
             literal_strings_number: 0
         };
@@ -572,7 +572,8 @@ pub fn process<I: BufRead, O: Write>(
                     if caps.get(2).is_none() {
                         context.define(mcro, value);
                     } else {
-                        let mut rex = format!("\\b{}\\(", mcro);
+                        // As in C, white space may separate the macro name from its argument list
+                        let mut rex = format!("\\b{}\\s*\\(", mcro);
                         let params = caps.get(2).unwrap().as_str();
                         if !params.is_empty() {
                             for v in caps.get(2).unwrap().as_str().split(',') {
